@@ -14,6 +14,8 @@ import Mathlib.Algebra.BigOperators.Group.List.Basic
 import Mathlib.Algebra.Field.Basic
 import Mathlib.Algebra.Order.Ring.Rat
 import Mathlib.Tactic.Abel
+import Mathlib.Tactic.Ring
+import Mathlib.Tactic.Linarith
 
 namespace RenoVerif.RKStep
 
@@ -119,5 +121,41 @@ theorem ctl_rejected_step_overshoots :
     let s4 := ctlStep (1 : Rat) (1/2) (1/10) 2 s3 1
     let s5 := ctlStep (1 : Rat) (1/2) (1/10) 2 s4 1
     s5.done = true ∧ s5.evolved + 1/4 = 1 ∧ s5.applied = 2 := by decide +kernel
+
+/-- **time bookkeeping of the repaired adaptive controller**: for EVERY sequence of step-size factors
+    (whatever the error estimates were), while the loop runs the state has been propagated exactly by
+    `evolved_dt`, and when it exits the state has been propagated exactly by the target time. -/
+theorem ctlFixed_time_conserved (target : Rat) (ps : List Rat) :
+    let s := ps.foldl (ctlStepFixed target (1/2) (1/10) 2) ⟨0, 1, 0, false⟩
+    (s.done = false → s.applied = s.evolved) ∧ (s.done = true → s.applied = target) := by
+  have key : ∀ (ps : List Rat) (s : Ctl Rat),
+      ((s.done = false → s.applied = s.evolved) ∧ (s.done = true → s.applied = target)) →
+      let s' := ps.foldl (ctlStepFixed target (1/2) (1/10) 2) s
+      (s'.done = false → s'.applied = s'.evolved) ∧ (s'.done = true → s'.applied = target) := by
+    intro ps
+    induction ps with
+    | nil => intro s h; exact h
+    | cons p ps ih =>
+      intro s h
+      simp only [List.foldl_cons]
+      apply ih
+      unfold ctlStepFixed
+      by_cases hd : s.done = true
+      · simp only [hd, if_true]
+        exact ⟨fun hc => (by cases hc), fun _ => h.2 hd⟩
+      · have hd' : s.done = false := by simpa using hd
+        have happ := h.1 hd'
+        simp only [hd', Bool.false_eq_true, if_false]
+        split
+        · exact ⟨fun _ => happ, fun hc => by simp [hd'] at hc⟩
+        · split
+          · rename_i hfin
+            refine ⟨fun hc => by simp at hc, fun _ => ?_⟩
+            simp only
+            rw [happ]
+            have := hfin
+            linarith
+          · refine ⟨fun _ => by simp only; rw [happ], fun hc => by simp at hc⟩
+  exact key ps ⟨0, 1, 0, false⟩ ⟨fun _ => rfl, fun h => by simp at h⟩
 
 end RenoVerif.RKStep
